@@ -2277,9 +2277,11 @@ ure_exec(ure_dfa_t dfa, int flags, ucs2_t *text, unsigned long textlen,
 	  matched = 1;
 	break;
       case _URE_BOL_ANCHOR:
-	if (flags & URE_NOTBOL)
-	  break;
-	if (lp == text) {
+	/*
+	 * URE_NOTBOL: the text does not begin at the beginning of a line.
+	 * The lines which begin within the text are not concerned.
+	 */
+	if (lp == text && !(flags & URE_NOTBOL)) {
 	  /*
 	   * Nothing is consumed here, so only at the start of an
 	   * attempt ("^*" never came back from this place).
@@ -2296,8 +2298,10 @@ ure_exec(ure_dfa_t dfa, int flags, ucs2_t *text, unsigned long textlen,
 	}
 	break;
       case _URE_EOL_ANCHOR:
-	if (flags & URE_NOTEOL)
-	  break;
+	/*
+	 * URE_NOTEOL: the text does not end at the end of a line (see
+	 * below).  The lines which end within the text are not concerned.
+	 */
 	if (_ure_isbrk(c)) {
 	  /*
 	   * Put the pointer back before the separator so the match
